@@ -57,6 +57,10 @@ CORPUS = [
     (81, dict(method='pit', dim=1, fold=True, auto=False, userpit='some', ufold='same', train=False, multi=False, excl=False, want='linear')),
     (82, dict(method='pit', dim=2, fold=True, auto=True, userpit='some', ufold='same', train=True, multi=False, excl=False, want='linear')),
     (83, dict(method='pit', dim=2, fold=True, auto=False, userpit='all', ufold='same', train=True, multi=False, excl=False, want='conv2d')),
+    # two-input siamese network with a shared head (second stem reachable only through the head's second call site)
+    (111, dict(method='pit', dim=2, fold=False, auto=True, userpit='none', train=False, multi=False, excl=False, siamese=True)),
+    (112, dict(method='pit', dim=1, fold=True, auto=True, userpit='none', train=True, multi=False, excl=False, siamese=True)),
+    (113, dict(method='pit', dim=2, fold=False, auto=False, userpit='all', ufold='same', train=False, multi=False, excl=False, siamese=True)),
     # convolutions with padding_mode circular / reflect / replicate (padding > 0), 2-D and 1-D, autoconverted and hand-placed
     (101, dict(method='pit', dim=2, fold=False, auto=True, userpit='none', train=False, multi=False, excl=False, pmode=True)),
     (107, dict(method='pit', dim=2, fold=True, auto=False, userpit='all', ufold='same', train=True, multi=False, excl=False, pmode=True)),
@@ -126,6 +130,15 @@ def gen_cases(ctx):
                 for ufold in ('same', 'default'):
                     add(dict(method='pit', dim=2 if want == 'conv2d' else 1 if want == 'conv1d' else rng.choice([1, 2]), fold=fold, auto=rng.random() < 0.5,
                              userpit=rng.choice(['some', 'all']), ufold=ufold, train=rng.random() < 0.5, multi=False, excl=False, want=want))
+    # two-input siamese networks: private Conv+BN stems, ONE shared head (the same modules at two call sites), auto-converted and hand-placed
+    for rep in range(1 if ctx.quick else n):
+        for dim in (1, 2):
+            for fold in (False, True):
+                add(dict(method='pit', dim=dim, fold=fold, auto=True, userpit='none', train=rng.random() < 0.5, multi=False, excl=False, siamese=True))
+                add(dict(method='pit', dim=dim, fold=fold, auto=rng.random() < 0.5, userpit=rng.choice(['some', 'all']), ufold=rng.choice(['same', 'default']),
+                         train=rng.random() < 0.5, multi=False, excl=False, siamese=True))
+            add(dict(method='sn', dim=dim, train=rng.random() < 0.5, multi=False, siamese=True))
+            add(dict(method='mps', dim=2, train=rng.random() < 0.5, multi=False, siamese=True))
     # forward() that reads self.training (extra log_softmax / relu, auxiliary head while training, a traced sub-block):
     # fx bakes the branch at trace time, the eval-time function is the one that must be preserved
     for rep in range(n):
@@ -143,8 +156,8 @@ def gen_cases(ctx):
 
 def cfg_tag(cfg):
     if cfg['method'] != 'pit':
-        return '%s%s%s:%s' % ('mixed-flags:' if cfg.get('mixed') else '', ('training-branch:' if cfg.get('tbranch') else '') + ('bn-hp:' if cfg.get('bnhp') else '') + ('two-call-sites:' if cfg.get('twice') else '') + ('reparam:' if cfg.get('reparam') else '') + ('padmode:' if cfg.get('pmode') else ''), cfg['method'], 'train' if cfg['train'] else 'eval')
-    return ('mixed-flags:' if cfg.get('mixed') else '') + ('training-branch:' if cfg.get('tbranch') else '') + ('bn-hp:' if cfg.get('bnhp') else '') + ('two-call-sites:' if cfg.get('twice') else '') + ('reparam:' if cfg.get('reparam') else '') + ('padmode:' if cfg.get('pmode') else '') + ('placed-%s-bn:' % cfg['want'] if cfg.get('want') else '') + 'pit:%s:%s:%s%s:%s' % ('auto' if cfg['auto'] else 'import', 'userpit-' + cfg.get('userpit', 'none'), 'fold' if cfg['fold'] else 'nofold',
+        return '%s%s%s:%s' % ('mixed-flags:' if cfg.get('mixed') else '', ('training-branch:' if cfg.get('tbranch') else '') + ('bn-hp:' if cfg.get('bnhp') else '') + ('two-call-sites:' if cfg.get('twice') else '') + ('reparam:' if cfg.get('reparam') else '') + ('padmode:' if cfg.get('pmode') else '') + ('siamese:' if cfg.get('siamese') else ''), cfg['method'], 'train' if cfg['train'] else 'eval')
+    return ('mixed-flags:' if cfg.get('mixed') else '') + ('training-branch:' if cfg.get('tbranch') else '') + ('bn-hp:' if cfg.get('bnhp') else '') + ('two-call-sites:' if cfg.get('twice') else '') + ('reparam:' if cfg.get('reparam') else '') + ('padmode:' if cfg.get('pmode') else '') + ('siamese:' if cfg.get('siamese') else '') + ('placed-%s-bn:' % cfg['want'] if cfg.get('want') else '') + 'pit:%s:%s:%s%s:%s' % ('auto' if cfg['auto'] else 'import', 'userpit-' + cfg.get('userpit', 'none'), 'fold' if cfg['fold'] else 'nofold',
                                   ':int' if cfg.get('integer') else '', 'train' if cfg['train'] else 'eval')
 
 
